@@ -35,8 +35,11 @@ Inductive case :=
         (final : list N) (ver_after : N) (vreads : list (nat * nat * N))
         (late : list (resp * resp))      (* retained responses read again later *)
         (overlaps : N)                   (* times a second client entered a node's Process while another was inside *)
+        (fresh : list (resp * resp))     (* at the quiescent point after the window: (artifact of the live instance,
+                                            artifact of a FRESH instance given the same parameter values) *)
 (* single-threaded script: [calls] in program order *)
-| CSeq (init : list N) (ver : N) (calls : list call) (final : list N) (ver_after : N) (late : list (resp * resp)).
+| CSeq (init : list N) (ver : N) (calls : list call) (final : list N) (ver_after : N) (late : list (resp * resp))
+       (fresh : list (resp * resp)).
 
 Definition is_update (o : op) : bool := match o with Update _ _ | BadUpdate _ => true | _ => false end.
 Definition count_if (f : call -> bool) (l : list call) : N := N.of_nat (List.length (filter f l)).
@@ -75,24 +78,26 @@ Definition values_ok (late : list (resp * resp)) : bool := forallb (fun p => res
    update exactly once, version reads are plausible, retained responses never change, node evaluation is exclusive *)
 Definition prop_ok (c : case) : bool :=
   match c with
-  | CHist _ init ver calls _ ver_after vreads late overlaps =>
+  | CHist _ init ver calls _ ver_after vreads late overlaps fresh =>
       stamps_ok calls && linb (state_of init ver) calls
       && N.eqb ver_after (ver + count_if (fun x => is_update (c_op x)) calls)
       && forallb (vread_ok ver calls) vreads
       && values_ok late
       && N.eqb overlaps 0          (* mutex_invariant observed on the implementation: node evaluation is exclusive *)
-  | CSeq init ver calls _ ver_after late =>
+      && values_ok fresh           (* what the caches serve = what a from-scratch evaluation of the same state yields,
+                                      also for producers with failing nodes *)
+  | CSeq init ver calls _ ver_after late fresh =>
       stamps_ok calls && linb (state_of init ver) calls
       && N.eqb ver_after (ver + count_if (fun x => is_update (c_op x)) calls)
-      && values_ok late
+      && values_ok late && values_ok fresh
   end.
 
 (* model vs implementation: the model predicts the responses AND the state the window leaves behind *)
 Definition corr_ok (c : case) : bool :=
   match c with
-  | CHist _ init ver calls final _ _ _ _ =>
+  | CHist _ init ver calls final _ _ _ _ _ =>
       linb (state_of init ver) (calls ++ final_reads calls final)
-  | CSeq init ver calls final ver_after _ =>
+  | CSeq init ver calls final ver_after _ _ =>
       legalb (state_of init ver) (calls ++ final_reads calls final)
       && N.eqb ver_after (st_ver (run_calls (state_of init ver) calls))
   end.
